@@ -577,3 +577,18 @@ pub fn run(tier_name: &str, seed: u64) -> i32 {
     };
     report::finish(meta, tally, wall, &|v| replay_all(&v["case"]))
 }
+
+
+pub fn digest(seed: u64, i: u64) -> Vec<String> {
+    let t = tier("quick");
+    let Some(mut case) = gen_case(seed, 9000 + i % 5, i, &t) else { return vec![format!("C13 {i} - no-case")] };
+    let robot = Arc::new(case.cell.build_probed_robot());
+    let mut lines = Vec::new();
+    for (j, cancel) in [Cancel::Never, Cancel::At(Kind::Collision, 3), Cancel::Async(7)].into_iter().enumerate() {
+        case.cancel = cancel;
+        let out = execute(&robot, &case, true);
+        let res = out.result.as_ref().map(|o| format!("{:?} {:?} {:?}", o.result, o.trace.events, o.trace.raised_at));
+        lines.push(format!("C13 {i} {j} {} {:016x} {}", out.log.hex(), simctx::name_hash(&format!("{res:?}")), out.schedule.len()));
+    }
+    lines
+}
